@@ -14,6 +14,17 @@ pub open spec fn seq_cloned<T: Clone>(a: VSeq<T>, b: VSeq<T>) -> bool {
 
 } // verus!
 verus! {
+// group / group': consecutive chunks of n items, the last one possibly shorter
+pub open spec fn chunks_ok<T>(vs: VSeq<T>, n: int, out: VSeq<Vec<T>>) -> bool {
+    vs.len() <= out.len() * n < vs.len() + n
+        && forall|i: int| 0 <= i < out.len() ==> (#[trigger] out[i])@ == vs.subrange(i * n, if i * n + n <= vs.len() { i * n + n } else { vs.len() as int })
+}
+pub proof fn lemma_mod_of_multiple_plus(q: int, g: int, n: int)
+    requires n > 0, 0 <= g < n, q >= 0,
+    ensures (q * n + g) % n == g,
+{
+    vstd::arithmetic::div_mod::lemma_fundamental_div_mod_converse(q * n + g, n, q, g);
+}
 // ---- helpers that call back into user code ----
 // the interpreter value a callback sees for an element: a clone of it, converted with Into<Obj>
 pub open spec fn shown_as<T: Clone + Into<Obj>>(x: T, o: Obj) -> bool {
